@@ -668,7 +668,7 @@ class CeiloChunk(AbstractChunk):
 
         # Add a column to the original data to keep track of the slice id.
         # First, set them all to -1 and force the correct dtype. I hate pandas for this ...
-        self.data.loc[:, 'slice_id'] = -1
+        self.data['slice_id'] = -1
         self.data['slice_id'] = self.data.loc[:, 'slice_id'].astype(int)
 
         # If I have only 1 valid point ...
@@ -785,7 +785,7 @@ class CeiloChunk(AbstractChunk):
         self._slices['isolated'] = None
 
         # Prepare to add the group id to the data frame
-        self.data.loc[:, 'group_id'] = None
+        self.data['group_id'] = None
 
         # Prepare a list of slices that are overlapping with one another.
         slice_bundles = []
@@ -908,7 +908,7 @@ class CeiloChunk(AbstractChunk):
                                  'finding groups first !')
 
         # Get ready to add the layering info to the data
-        self.data.loc[:, 'layer_id'] = None
+        self.data['layer_id'] = None
 
         # Sub-layer ids start at 100, or above the largest group id if there are that many groups,
         # so that they never collide with the (inherited) ids of the groups that are not split.
